@@ -166,9 +166,12 @@ static inline void with_env(int env, F f)
             key(k);
             buf += v;
         }
+        bool mute = false; // concurrent mode: the call is made (for contention) but its record belongs to another thread
         void end()
         {
             buf += "}\n";
+            if (mute)
+                return;
             fwrite(buf.data(), 1, buf.size(), f);
             fflush(f); // a later crash must never truncate an already recorded event
         }
@@ -264,6 +267,45 @@ static inline void with_env(int env, F f)
         }
         return e;
     }
+
+// run the case loop `f(out, tid, nthreads)` once (default) or, with VERIF_THREADS=n in the environment, on n plain threads at
+// the same time, thread t taking the cases with index % n == t and writing its own part of the trace (concatenated at
+// the end): concurrent callers of routines whose results must depend on their arguments only
+template <class F>
+static inline int run_partitioned(const char *path, F f)
+{
+    const char *e = getenv("VERIF_THREADS");
+    int n = e ? atoi(e) : 1;
+    if (n <= 1)
+    {
+        vh::Out o(path);
+        return f(o, 0, 1);
+    }
+    std::vector<int> rc(n, 0);
+    vh::concurrently(n, [&](int tid) {
+        std::string pt = std::string(path) + ".t" + std::to_string(tid);
+        vh::Out o(pt.c_str());
+        rc[tid] = f(o, tid, n);
+    });
+    FILE *out = fopen(path, "w");
+    int worst = 0;
+    for (int t = 0; t < n; t++)
+    {
+        std::string pt = std::string(path) + ".t" + std::to_string(t);
+        FILE *in = fopen(pt.c_str(), "r");
+        char buf[1 << 16];
+        size_t k;
+        while (in && (k = fread(buf, 1, sizeof buf, in)) > 0)
+            fwrite(buf, 1, k, out);
+        if (in)
+            fclose(in);
+        remove(pt.c_str());
+        if (rc[t] > worst)
+            worst = rc[t];
+    }
+    fclose(out);
+    return worst;
+}
 }
 
 // ---- exact-extent buffers: end-aligned against a PROT_NONE page, so an access one element past the declared
